@@ -985,6 +985,14 @@ class PGPMessage(Armorable, PGPObject):
             _bytes += pkt.__bytearray__()
         return _bytes
 
+    @property
+    def _signed_text(self):
+        # what a signature over this message covers; in the cleartext signature framework trailing spaces
+        # and tabs of every line are not part of the signed text (RFC 4880, section 7.1)
+        if self.type == 'cleartext' and isinstance(self.message, str):
+            return re.sub(r'[ \t]+(?=\r?\n)|[ \t]+\Z', '', self.message)
+        return self.message
+
     def __str__(self):
         if self.type == 'cleartext':
             tmpl = u"-----BEGIN PGP SIGNED MESSAGE-----\n" \
@@ -2050,7 +2058,7 @@ class PGPKey(Armorable, ParentRef, PGPObject):
             if subject.type == 'cleartext':
                 sig_type = SignatureType.CanonicalDocument
 
-            subject = subject.message
+            subject = subject._signed_text
 
         sig = PGPSignature.new(sig_type, self.key_algorithm, hash_algo, self.fingerprint.keyid, created=prefs.pop('created', None))
 
@@ -2441,7 +2449,7 @@ class PGPKey(Armorable, ParentRef, PGPObject):
         if signature is None:
             if isinstance(subject, PGPMessage):
                 for sig in _filter_sigs(subject.signatures):
-                    sspairs.append((sig, subject.message))
+                    sspairs.append((sig, subject._signed_text))
 
             if isinstance(subject, (PGPUID, PGPKey)):
                 sspairs += [ (sig, subject) for sig in _filter_sigs(subject.__sig__) ]
